@@ -10,8 +10,9 @@ use vkit::mirror;
 use vkit::out::Report;
 use vkit::util::Args;
 
-pub const LEAVES: [&str; 5] = ["valid", "wronghost", "expired", "selfsigned", "unknownca"];
-pub const ROOTS: [&str; 4] = ["none", "pem", "der", "unrelated"];
+/// "valided": valid for the host, under a second, tiny Ed25519 root (its DER encoding is shorter than 256 bytes)
+pub const LEAVES: [&str; 6] = ["valid", "wronghost", "expired", "selfsigned", "unknownca", "valided"];
+pub const ROOTS: [&str; 6] = ["none", "pem", "der", "unrelated", "edpem", "edder"];
 pub const IGNORE: [Option<bool>; 3] = [None, Some(false), Some(true)];
 
 fn request(id: u32) -> Model {
@@ -35,6 +36,8 @@ pub fn run(args: &Args, tier: &str, seed: u64, backend: &str) -> Report {
             "pem" => Some(read("ca1.pem")),
             "der" => Some(read("ca1.der")),
             "unrelated" => Some(read("ca2.pem")),
+            "edpem" => Some(read("ca4.pem")),
+            "edder" => Some(read("ca4.der")),
             _ => None,
         }
     };
@@ -79,7 +82,7 @@ pub fn run(args: &Args, tier: &str, seed: u64, backend: &str) -> Report {
                                 if only.as_ref().map(|o| o != &cell).unwrap_or(false) {
                                     continue;
                                 }
-                                let should_accept = ignore == Some(true) || ((root == "pem" || root == "der") && leaf == "valid");
+                                let should_accept = ignore == Some(true) || ((root == "pem" || root == "der") && leaf == "valid") || ((root == "edpem" || root == "edder") && leaf == "valided");
                                 let resp = response.clone();
                                 srv.on(&id, Arc::new(move |_r: &Req| Plan::ok(resp.clone())));
                                 let events_before = srv.log.lock().unwrap().len();
@@ -155,9 +158,9 @@ pub fn run(args: &Args, tier: &str, seed: u64, backend: &str) -> Report {
     }
     let mut rep = rep_m.into_inner().unwrap();
     rep.extra.insert("tls_backend_of_this_build".into(), J::Str(backend.to_string()));
-    rep.rule = format!("Complete matrix for the {backend} build: {{blocking, async}} x ignore_tls_errors {{unset, false, true}} x extra root {{none, correct CA as PEM, as DER, unrelated CA}} x server certificate {{valid for localhost, wrong host name, expired, self-signed, signed by an unknown CA}} = 120 cells per TLS backend (thorough: x {{1.2+1.3, 1.2-only, 1.3-only}} peers), against a loopback rustls peer with freshly generated CAs. Oracle: accept <=> ignore == true or (root in {{PEM, DER}} and leaf == valid); in every rejected cell the peer application must have received zero decrypted bytes. The other backend's 120 cells come from the second build (merged by the driver).");
+    rep.rule = format!("Complete matrix for the {backend} build: {{blocking, async}} x ignore_tls_errors {{unset, false, true}} x extra root {{none, correct CA as PEM, as DER, unrelated CA, second (tiny Ed25519, DER < 256 bytes) CA as PEM, as DER}} x server certificate {{valid for localhost, wrong host name, expired, self-signed, signed by an unknown CA, valid under the second CA}} = 216 cells per TLS backend (thorough: x {{1.2+1.3, 1.2-only, 1.3-only}} peers), against a loopback rustls peer with freshly generated CAs. Oracle: accept <=> ignore == true or the supplied root (PEM or DER) is the one the valid leaf chains to; in every rejected cell the peer application must have received zero decrypted bytes. The other backend's 120 cells come from the second build (merged by the driver).");
     if only.is_none() {
-        rep.require(rep.evaluations as usize >= 120 * version_sets.len(), "all cells of the matrix executed");
+        rep.require(rep.evaluations as usize >= 216 * version_sets.len(), "all cells of the matrix executed");
     }
     rep.assumptions.push("trust decisions are those of OpenSSL / rustls as shipped in this image; system roots do not vouch for the freshly generated CAs".into());
     rep
